@@ -30,6 +30,8 @@ write-log entries `k:v` / `k:~` (delete).
                                pair and map contents(H1) to contents(H2) — never another fork's —;
                                `NOTSERVED` is admissible only with `may` (H2 not finalized, or discarded);
                                for the finalized candidate (`must`) the log has to be served.
+                               When H2 was committed on top of another candidate of the same version the
+                               served log may be the composition of the two recorded logs (two hops).
   wf                           model self-check: current trie is in canonical form
   shape                        answers `ok h=<internal nodes on the longest path> internal=<internal nodes> keys=<n>`
   needs                        from here on the answer `ok` to an operation that writes to the tree
@@ -230,6 +232,21 @@ def stepCore (st : St) (line : String) : St × String :=
             fail s!"fork-write-log served for {showHex h2} does not reach it: expected={showLog e.2.2} impl={showLog served}"
           else if !((e :: es).any (fun e => served.all (fun x => e.2.2.contains x))) then
             fail s!"fork-write-log has entries Commit did not report for this root: model={showLog e.2.2} impl={showLog served}"
+          else if (served.map (·.1)).eraseDups.length != served.length then
+            fail s!"fork-write-log has duplicate keys: impl={showLog served}"
+          else (st, "ok")
+        | [], some t1, some t2 =>
+          -- no log recorded for exactly this pair: H2 was committed on top of another candidate of the
+          -- same version (a chain inside the version), and the backend serves the composition of the
+          -- two recorded logs (GetWriteLog follows up to two hops)
+          let via := (st.logs.filter (fun a => a.1 == h1)).flatMap (fun a =>
+            (st.logs.filter (fun b => b.1 == a.2.1 && b.2.1 == h2)).map (fun b => a.2.2 ++ b.2.2))
+          let served := sortLog log
+          if via.isEmpty then fail "getwlf: no such transition in the model"
+          else if applyLogSpec t1.toList served != t2.toList then
+            fail s!"fork-write-log served for {showHex h2} through an intermediate root does not reach it: impl={showLog served}"
+          else if !(via.any (fun u => served.all (fun x => u.contains x))) then
+            fail s!"fork-write-log has entries Commit did not report on the way to this root: impl={showLog served}"
           else if (served.map (·.1)).eraseDups.length != served.length then
             fail s!"fork-write-log has duplicate keys: impl={showLog served}"
           else (st, "ok")
